@@ -15,6 +15,10 @@ func ProcessExecutionPayload(ctx context.Context, spec *common.Spec, state Execu
 	if engine == nil {
 		return errors.New("nil execution engine")
 	}
+	// The payload may have bypassed deserialization checks: over-long extra data has no tree form (the header view panics).
+	if n := len(executionPayload.ExtraData); n > common.MAX_EXTRA_DATA_BYTES {
+		return fmt.Errorf("execution payload extra data is too long: %d bytes", n)
+	}
 
 	slot, err := state.Slot()
 	if err != nil {
